@@ -130,6 +130,12 @@ def enum_cases(tier):
     for nf in range(1, (12 if tier == "thorough" else 6) + 1):
         for supply in ([], ["edge_node"]):
             yield {"conv": "ugrid", "nf": nf, "supply": supply}
+    # 2-D grids whose coordinate variables are named like their own dimensions, lat(lat, lon) and
+    # lon(lat, lon) (only here: xarray's multi-file machinery, which clip uses, cannot open such
+    # datasets, so the other properties do not generate them)
+    for conv in ("cf2d",):
+        for nj, ni in ((2, 3), (3, 5), (4, 2)):
+            yield {"conv": conv, "nj": nj, "ni": ni, "names": {"lat": "lat", "lon": "lon", "y": "lat", "x": "lon"}}
     # every pair of CF unit spellings for the two axes, either variable first, on a non-square grid
     for conv in ("cf1d", "cf2d"):
         for a in range(6):
@@ -169,6 +175,8 @@ def regular_spec(case):
                     "coords_as": "coord", "bounds_as": "var", "detect": "units"}
         else:
             geom = {"nodes": nodes, "coords_as": "coord"}
+    if case.get("names"):
+        geom["names"] = case["names"]
     if case.get("detect"):
         geom["detect"] = case["detect"]
         geom["lon_first"] = case.get("lon_first", False)
